@@ -13,7 +13,7 @@
 use std::alloc::{GlobalAlloc, Layout, System};
 use std::io::Write;
 use std::sync::OnceLock;
-use std::sync::atomic::{AtomicU64, Ordering};
+use std::sync::atomic::{AtomicPtr, AtomicU64, Ordering};
 
 pub const LIMIT: usize = 256 * 1024 * 1024;
 
@@ -32,15 +32,40 @@ pub fn set_log(f: std::fs::File) {
     let _ = LOG.set(f);
 }
 
-/// write without allocating
 pub fn raw_log(prefix: &[u8], n: u64) {
+    raw_log2(prefix, n, u64::MAX)
+}
+
+/// write `<prefix><n>[ <m>]\n` without allocating (m = u64::MAX: omitted)
+pub fn raw_log2(prefix: &[u8], n: u64, m: u64) {
     if let Some(f) = LOG.get() {
-        let mut buf = [0u8; 64];
+        let mut buf = [0u8; 96];
         let mut k = 0;
         for b in prefix {
             buf[k] = *b;
             k += 1;
         }
+        if m != u64::MAX {
+            let mut digits = [0u8; 20];
+            let mut d = 0;
+            let mut v = n;
+            loop {
+                digits[d] = b'0' + (v % 10) as u8;
+                d += 1;
+                v /= 10;
+                if v == 0 {
+                    break;
+                }
+            }
+            while d > 0 {
+                d -= 1;
+                buf[k] = digits[d];
+                k += 1;
+            }
+            buf[k] = b' ';
+            k += 1;
+        }
+        let n = if m != u64::MAX { m } else { n };
         let mut digits = [0u8; 20];
         let mut d = 0;
         let mut v = n;
@@ -101,27 +126,102 @@ fn refuse(size: usize) -> bool {
     }
 }
 
+// --- large-block cache -------------------------------------------------------
+// First touch of fresh anonymous memory is extremely slow in this sandbox
+// (~75 us per 4 KiB page: a 200 MB table costs seconds). The damage sweeps
+// legitimately meet many allocations of 1..256 MiB (record table sized by a
+// damaged index), so blocks of at least 1 MiB are rounded up to a power of
+// two and one freed block per size class is kept and handed out again, which
+// keeps its pages resident. Semantics are unchanged (alloc returns
+// uninitialised memory, alloc_zeroed clears it).
+
+const BIG: usize = 1 << 20;
+const CLASSES: usize = 9; // 1 MiB .. 256 MiB
+static CACHE: [AtomicPtr<u8>; CLASSES] = [const { AtomicPtr::new(std::ptr::null_mut()) }; CLASSES];
+
+#[inline]
+fn class_of(layout: &Layout, size: usize) -> Option<usize> {
+    if size >= BIG && size <= LIMIT && layout.align() <= 4096 {
+        let c = (usize::BITS - (size - 1).leading_zeros()) as usize - 20;
+        Some(c.min(CLASSES - 1))
+    } else {
+        None
+    }
+}
+
+#[inline]
+fn class_layout(c: usize) -> Layout {
+    // cannot fail: size is a power of two <= 256 MiB
+    unsafe { Layout::from_size_align_unchecked(1usize << (20 + c), 4096) }
+}
+
+unsafe fn big_alloc(c: usize) -> *mut u8 {
+    let p = CACHE[c].swap(std::ptr::null_mut(), Ordering::AcqRel);
+    if !p.is_null() {
+        return p;
+    }
+    unsafe { System.alloc(class_layout(c)) }
+}
+
+unsafe fn big_free(c: usize, ptr: *mut u8) {
+    let old = CACHE[c].swap(ptr, Ordering::AcqRel);
+    if !old.is_null() {
+        unsafe { System.dealloc(old, class_layout(c)) }
+    }
+}
+
 unsafe impl GlobalAlloc for Counting {
     unsafe fn alloc(&self, layout: Layout) -> *mut u8 {
         if refuse(layout.size()) {
             return std::ptr::null_mut();
         }
-        unsafe { System.alloc(layout) }
+        match class_of(&layout, layout.size()) {
+            Some(c) => unsafe { big_alloc(c) },
+            None => unsafe { System.alloc(layout) },
+        }
     }
     unsafe fn dealloc(&self, ptr: *mut u8, layout: Layout) {
-        unsafe { System.dealloc(ptr, layout) }
+        match class_of(&layout, layout.size()) {
+            Some(c) => unsafe { big_free(c, ptr) },
+            None => unsafe { System.dealloc(ptr, layout) },
+        }
     }
     unsafe fn alloc_zeroed(&self, layout: Layout) -> *mut u8 {
         if refuse(layout.size()) {
             return std::ptr::null_mut();
         }
-        unsafe { System.alloc_zeroed(layout) }
+        match class_of(&layout, layout.size()) {
+            Some(c) => unsafe {
+                let p = big_alloc(c);
+                if !p.is_null() {
+                    std::ptr::write_bytes(p, 0, layout.size());
+                }
+                p
+            },
+            None => unsafe { System.alloc_zeroed(layout) },
+        }
     }
     unsafe fn realloc(&self, ptr: *mut u8, layout: Layout, new_size: usize) -> *mut u8 {
         if refuse(new_size) {
             return std::ptr::null_mut();
         }
-        unsafe { System.realloc(ptr, layout, new_size) }
+        let old_c = class_of(&layout, layout.size());
+        let new_c = class_of(&layout, new_size);
+        if old_c.is_none() && new_c.is_none() {
+            return unsafe { System.realloc(ptr, layout, new_size) };
+        }
+        if old_c == new_c {
+            return ptr; // same power-of-two block
+        }
+        unsafe {
+            let new_layout = Layout::from_size_align_unchecked(new_size, layout.align());
+            let p = self.alloc(new_layout);
+            if !p.is_null() {
+                std::ptr::copy_nonoverlapping(ptr, p, layout.size().min(new_size));
+                self.dealloc(ptr, layout);
+            }
+            p
+        }
     }
 }
 
